@@ -92,6 +92,8 @@ def run(trace):
     try:
         r.run(until=lambda: r.i >= len(script), sleep=c["sleep"])
     except BaseException as e:
+        if type(e).__name__ == "CaseHang":
+            raise
         return violation("keeps_running", "run() let %r escape after %d calls" % (e, r.i))
     if r.i != len(script):
         return violation("keeps_running", "do() called %d times for a script of %d entries" % (r.i, len(script)))
